@@ -635,8 +635,7 @@ class Subscription(BaseSubscription):
         select = """
             SELECT id, created_at, kind, pubkey, tags, sig, content FROM events
         """
-        where = set()
-        limit = None
+        selects = []
         new_filters = []
         for filter_obj in filters:
             subwhere = []
@@ -648,24 +647,25 @@ class Subscription(BaseSubscription):
                 filter_obj = NostrQuery()
                 subwhere = []
                 self.bind_values = bound
-            if subwhere:
-                subwhere = " AND ".join(subwhere)
-                where.add(subwhere)
-            else:
-                where.add("false")
-            if filter_obj.limit:
-                limit = min(filter_obj.limit, self.default_limit)
             new_filters.append(filter_obj)
-        if where:
-            select += " WHERE (\n\t"
-            select += "\n) OR (\n".join(where)
-            select += ")"
-        if limit is None:
-            limit = self.default_limit
-        select += f"""
-            ORDER BY created_at DESC
-            LIMIT {limit}
-        """
+            if not subwhere:
+                continue
+            # each filter has its own limit
+            if filter_obj.limit is None:
+                limit = self.default_limit
+            else:
+                limit = min(filter_obj.limit, self.default_limit)
+            subselect = f"""{select} WHERE {" AND ".join(subwhere)}
+                ORDER BY created_at DESC LIMIT {limit}"""
+            if subselect not in selects:
+                selects.append(subselect)
+        if len(selects) == 1:
+            select = selects[0]
+        elif selects:
+            select = "\nUNION\n".join(f"SELECT * FROM ({sub})" for sub in selects)
+            select += "\nORDER BY created_at DESC"
+        else:
+            select += " WHERE false"
         query = sa.text(select)
         if self.bind_values:
             query = query.bindparams(**self.bind_values)
